@@ -64,6 +64,7 @@ REGIONS = {
     'renege_dyn': dict(renege=1.0, dyn=1.0, multiclass=True),     # reneging x class change while waiting (C17)
     'ps': dict(ps=1.0, noblock=True),
     'deadlock': dict(block=1.0, deadlock=True),
+    'renege_schedpre': dict(renege=1.0, sched=1.0, schedpre=1.0, noblock=True),
     'slotted_pre': dict(slotted=1.0, noblock=True, slotpre=True),
     'renege_jockey': dict(renege=1.0, routers=1.0, jockey=True, block=0.6),
     'preempt_deep': dict(prio=1.0, preempt=1.0, noblock=True, deep=True),
